@@ -92,8 +92,11 @@ impl Incremental {
                 }
                 let tree = self.tree.as_ref().unwrap();
                 let success = tree.success_count();
-                let mut errors: Vec<String> =
-                    tree.collect_errors().iter().map(|e| e.to_string()).collect();
+                let mut errors: Vec<String> = tree
+                    .collect_errors()
+                    .iter()
+                    .map(|e| exec::canon_text(&e.to_string(), opts))
+                    .collect();
                 errors.sort();
                 Outcome::Done { errors, success }
             }
